@@ -299,11 +299,11 @@ def configure_solvers(prob, sol, npts):
         if lin == "direct":
             cp.linear_solver = om.DirectSolver(assemble_jac=True)
         elif lin == "lbgs":
-            cp.linear_solver = om.LinearBlockGS(maxiter=sol.get("lin_maxiter", 200), atol=sol.get("lin_atol", 1e-12),
-                                                rtol=1e-30, use_aitken=True, iprint=-1, err_on_non_converge=True)
+            cp.linear_solver = om.LinearBlockGS(maxiter=sol.get("lin_maxiter", 400), atol=sol.get("lin_atol", 1e-30),
+                                                rtol=sol.get("lin_rtol", 1e-11), use_aitken=True, iprint=-1, err_on_non_converge=True)
         elif lin == "krylov":
-            cp.linear_solver = om.ScipyKrylov(maxiter=sol.get("lin_maxiter", 200), atol=sol.get("lin_atol", 1e-12),
-                                              rtol=1e-30, iprint=-1, err_on_non_converge=True)
+            cp.linear_solver = om.ScipyKrylov(maxiter=sol.get("lin_maxiter", 400), atol=sol.get("lin_atol", 1e-30),
+                                              rtol=sol.get("lin_rtol", 1e-11), iprint=-1, err_on_non_converge=True)
             pre = sol.get("precon", "lbgs")
             if pre == "lbgs":
                 cp.linear_solver.precon = om.LinearBlockGS(maxiter=2, iprint=-1)
